@@ -1,4 +1,4 @@
-\* Thorough tier: all 15 CIM types, two attributes set.
+\* Thorough tier: all 15 CIM types, one attribute set.
 SPECIFICATION Spec
 CONSTANTS
   Types = {"string", "char16", "boolean", "datetime", "reference", "uint8", "sint8", "uint16", "sint16", "uint32", "sint32", "uint64", "sint64", "real32", "real64"}
@@ -11,7 +11,7 @@ CONSTANTS
   MaxEls = 2
   MaxDepth = 1
   MaxKids = 1
-  MaxAttrs = 2
+  MaxAttrs = 1
   Modes = {"entity", "cdata"}
   W <- WFixed
   RootKinds = {"inst", "class", "ipath", "cpath", "prop", "pval", "qual", "qdecl", "meth", "parm"}
